@@ -393,6 +393,7 @@ func runC05(c *Ctx) {
 		R.Require("S.concat-all", 1, "")
 	}
 	c.deliverCompleteOnly()
+	c.hasCompleteContract()
 	R.Explain = "Decided for every decoded header (any package number, any total) and any parser state: the slot index and the concatenation loop are in range (E1), " +
 		"the timestamp record dereferenced after a slot store exists (paired-map lemma, checked structurally and then used by E1), a rejected package number leaves no side effect, " +
 		"and the message returned as complete carries a freshly concatenated body equal to its raw data and the completion flag. Exact delivery over arrival orders, duplicates and interleavings is not decided; " +
@@ -560,4 +561,61 @@ func (c *Ctx) deliverCompleteOnly() {
 	if nConsumer < 2 || nCallback < 4 {
 		R.Fatal("S.deliver-complete-only matched %d consumer call sites and %d callback invocations (confirmed by hand: 2 and 4)", nConsumer, nCallback)
 	}
+}
+
+// hasCompleteContract: the filter predicate itself. A message counts as complete exactly when it is not fragmented
+// (announced total 0) or carries the completion flag that only the reassembler sets.
+func (c *Ctx) hasCompleteContract() {
+	R := c.R
+	R.Rules["E3.complete-predicate"] = "Message.hasComplete() is true on every path exactly when the header announces no sub-packages (SubPackageSum == 0) or the message carries the SubcontractComplete flag (set only on the reassembled message): a fragment - also the only fragment of a 1-packet transfer - is never complete by itself"
+	fn := c.P.Method("service", "Message", "hasComplete")
+	if fn == nil {
+		R.Fatal("anchor (*service.Message).hasComplete not found")
+		return
+	}
+	var recv absint.Term
+	res := c.RunE1([]*ssa.Function{fn}, false, func(a *absint.Analyzer, f *ssa.Function, st *absint.State, args []absint.Term) {
+		recv = args[0]
+	})
+	c.AddE1(res, false)
+	r := res[0]
+	a := r.A
+	find := func(st *absint.State, path ...string) absint.Term {
+		return findField(a, st, recv, fn.Params[0].Type(), path)
+	}
+	n, ok, d := 0, true, ""
+	for _, ret := range r.Rets {
+		n++
+		sum, isI := find(ret.St, "JTMessage", "*", "Header", "*", "SubPackageSum").(absint.Int)
+		flag := find(ret.St, "ExtensionFields", "SubcontractComplete")
+		if !isI || flag == nil {
+			ok, d = false, "fields Header.SubPackageSum / ExtensionFields.SubcontractComplete not found on the receiver"
+			continue
+		}
+		zero := ret.St.Entails(absint.Con{L: sum.L, Rel: absint.EQ})
+		nonzero := !ret.St.Feasible(absint.Con{L: sum.L, Rel: absint.EQ})
+		val := a.Render(ret.Val)
+		switch {
+		case zero:
+			if val != "true" {
+				ok, d = false, "hasComplete() returns "+val+" for a message that announces no sub-packages"
+			}
+		case nonzero:
+			if ret.Val.TKey() != flag.TKey() {
+				ok, d = false, fmt.Sprintf("for a fragment (announced total != 0) hasComplete() returns %s, not the completion flag: a fragment can count as a complete message", val)
+			}
+		default:
+			if ret.Val.TKey() != flag.TKey() {
+				ok, d = false, fmt.Sprintf("hasComplete() returns %s on a path that does not distinguish an announced total of 0 from other totals", val)
+			}
+		}
+	}
+	st := report.Discharged
+	if !ok || n == 0 {
+		st = report.Violated
+		if n == 0 {
+			d = "no return analysed"
+		}
+	}
+	R.Add("E3.complete-predicate", shortFn(fn)+" / complete iff unfragmented or flagged by the reassembler", c.P.RelPos(fn.Pos()), st, d)
 }
